@@ -1,5 +1,5 @@
 (** * C04 — literals and names are transmitted as data, never as SQL syntax (partial). *)
-From PQL Require Import Model.Compile Spec.SqlLex Proofs.QuoteFacts.
+From PQL Require Import Model.Compile Spec.SqlLex Proofs.QuoteFacts Proofs.SqlGlue Proofs.ReadBack Proofs.SqlGlueToks.
 From Coq Require Import String.
 Local Open Scope list_scope.
 
@@ -23,6 +23,16 @@ Print Assumptions C04_ident_standard.
 Theorem C04_string_standard : forall s, sql_lex Standard (quote_sql_string s) = Some [SString (std_view s)].
 Proof. exact lex_quote_string_standard. Qed.
 Print Assumptions C04_string_standard.
+
+(** whole output, byte level: when neighbouring characters inside and across the printed pieces
+    are compatible ([glue_ok]: no `--`, `/*`, two-character operator or doubled quote formed across
+    a boundary, no word or number running into its neighbour), the concatenated bytes lex - with the
+    dialect's lexer - into exactly the pieces' own tokens: every name one quoted-identifier token,
+    every string one string token, every number one number token, carrying their original bytes *)
+Theorem C04_bytes_lex_to_piece_tokens : forall ps, glue_ok ps = true ->
+  exists ts, ptoks ps = Some ts /\ sql_lex ClickHouse (render ps) = Some ts.
+Proof. exact glue_bytes_are_ptoks. Qed.
+Print Assumptions C04_bytes_lex_to_piece_tokens.
 
 Example C04_example :
   sql_lex ClickHouse (quote_sql_string (L "x' , (select 1) -- \")) = Some [SString (L "x' , (select 1) -- \")].
